@@ -362,7 +362,9 @@ def conservation_validator(prog: Program, rep, RID: str):
         d = dec[0]
         rets = [r for r in d.body if isinstance(r, ast.Return)]
         if isinstance(d.test.ops[0], ast.NotEq) and rets and isinstance(rets[0].value, ast.Constant) and rets[0].value.value is False:
-            rep.ok(RID, key + ":decision", f"`{norm(d.test)}` -> return False", f.loc(d))
+            rep.violation(RID, key + ":decision", f"`{norm(d.test)}` compares two accumulated sums of flow values exactly: float flows that conserve flow as decimal numbers "
+                          "(0.3 -> 0.1 + 0.2 = 0.30000000000000004) are rejected as non-conserving although they are inside the documented domain; the reviewed form is "
+                          "`not math.isclose(in, out, ...)` with tolerances <= 1e-6", f.loc(d))
         else:
             rep.violation(RID, key + ":decision", f"`if {norm(d.test)}: {norm(d.body[0])[:40]}` does not answer False on every difference of inflow and outflow", f.loc(d))
     # 4. True only after the whole loop
